@@ -306,6 +306,17 @@ theorem drain_refines (k : Nat) (b : Bounded α) (h : b.Inv) :
     (Bounded.drainTake k b).1.abs = b.abs.drop k ∧ (Bounded.drainTake k b).2 = b.abs.take k :=
   ⟨(drainTake_spec k b h).2.2.1, (drainTake_spec k b h).2.2.2⟩
 
+/-- *"drain"* advanced with `Iterator::nth` (what `skip` / `step_by` call): `rb.drain().nth(k)` —
+    `k+1` steps of the draining iterator, of which the client sees the last — hands out the element at
+    index `k` of the ideal queue (`None` if there is none) and removes exactly the elements up to and
+    including it -/
+theorem drain_nth_refines (k : Nat) (b : Bounded α) (h : b.Inv) :
+    (Bounded.drainTake (k + 1) b).2[k]? = b.abs[k]? ∧ (Bounded.drainTake (k + 1) b).1.abs = b.abs.drop (k + 1) := by
+  obtain ⟨h1, h2⟩ := drain_refines (k + 1) b h
+  refine ⟨?_, h1⟩
+  rw [h2, List.getElem?_take]
+  simp
+
 theorem extend_spec (xs : List α) (b : Bounded α) (h : b.Inv) :
     (b.extend xs).Inv ∧ (b.extend xs).maxLen = b.maxLen ∧
     (b.extend xs).abs = xs.foldl (fun q x => (qPush b.maxLen q x).1) b.abs := by
